@@ -75,7 +75,17 @@ def nested_pair(run, rec):
     is_codon = rec["alt"] in ("MG94GTR", "MG94HKY", "CNFGTR", "CNFHKY", "GY94", "Y98")
     aln = fx["codon"] if is_codon else fx["dna"]
     pi = {word(w): float(frac(v)) for w, v in rec["pi"]}
-    null = get_model(rec["null"]).make_likelihood_function(fx["tree"])
+    nm = {"a": "a", "b": "b", "c": "c"}
+    tree_ = fx["tree"]
+    if rec.get("naming") == "anagrams":
+        # edge names are labels: tips whose names consist of the same characters (another order, another number of them)
+        from cogent3 import make_tree as _mk
+
+        nm = {"a": "12", "b": "21", "c": "112"}
+        key0 += ":anagram-edge-names"
+        tree_ = _mk("(" + ",".join(f"'{nm[e.name]}':{e.length}" for e in fx["tree"].get_edge_vector(include_root=False)) + ")")
+        aln = aln.rename_seqs(lambda n: nm[n])
+    null = get_model(rec["null"]).make_likelihood_function(tree_)
     null.set_alignment(aln)
     if rec["null"] not in ("JC69", "K80"):
         null.set_motif_probs(pi)
@@ -87,10 +97,10 @@ def nested_pair(run, rec):
             null.set_param_rule(pn, value=float(frac(v)), is_constant=True)
         else:
             null.set_param_rule(pn, init=float(frac(v)))
-    null_lengths = {"a": 0.0, "b": 0.33, "c": 0.07}  # not the tree's own lengths; one sits on the lower bound
+    null_lengths = {nm["a"]: 0.0, nm["b"]: 0.33, nm["c"]: 0.07}  # not the tree's own lengths; one sits on the lower bound
     for e, v in null_lengths.items():
         null.set_param_rule("length", edge=e, init=v)
-    alt = get_model(rec["alt"]).make_likelihood_function(fx["tree"])
+    alt = get_model(rec["alt"]).make_likelihood_function(tree_)
     alt.set_alignment(aln)
     if rec.get("prior") == "refused-batch":
         # a batch of rules the function refuses (it names an edge the tree does not have): a stuttering step
@@ -115,7 +125,7 @@ def nested_pair(run, rec):
     for e, v in null_lengths.items():
         if not close(alt.get_param_value("length", edge=e), v, 1e-9):
             run.fail(key0 + f":length:{'zero' if v == 0 else 'positive'}", {"pair": key0, "edge": e, "got": alt.get_param_value("length", edge=e), "want": v}, what="branch length not carried over by initialise_from_nested")
-    for edge in ("a", "b", "c"):
+    for edge in (nm["a"], nm["b"], nm["c"]):
         qa = alt.get_rate_matrix_for_edge(edge, calibrated=True).array
         qn = null.get_rate_matrix_for_edge(edge, calibrated=True).array
         n += qa.size
@@ -379,7 +389,7 @@ def check(run: Run):
         seen = set()
         n = 0
         for rec in read_emitted(emit):
-            k = (rec["null"], rec["alt"], json.dumps(rec["nullparams"]), rec.get("nullstatus"), rec.get("prior"))
+            k = (rec["null"], rec["alt"], json.dumps(rec["nullparams"]), rec.get("nullstatus"), rec.get("prior"), rec.get("naming"))
             if k in seen:
                 continue
             seen.add(k)
